@@ -142,7 +142,9 @@ pub fn register(sim: &Sim, idx: usize, spec: &RegSpec, now: u64, prev: &[RegInfo
 			let (secret, enc) = node.create_inbound_payment_for_hash(PaymentHash(hash), spec.amt, spec.expiry_secs, spec.min_cltv, spec.meta.clone()).map_err(|_| "create_inbound_payment_for_hash failed".to_string())?;
 			Ok(RegInfo { kind: spec.kind, hash, preimage: pre, secret: Some(secret.0), min_amt: spec.amt, expiry_abs: now + spec.expiry_secs as u64 + EXPIRY_MARGIN_SECS, min_cltv: spec.min_cltv, meta_plain: spec.meta.clone(), meta_enc: enc })
 		},
-		RegKind::Keysend => Ok(RegInfo { kind: spec.kind, hash: sha(&own_pre), preimage: own_pre, secret: None, min_amt: None, expiry_abs: u64::MAX, min_cltv: None, meta_plain: None, meta_enc: None }),
+		// keysend: nothing is registered at R; `secret` is the payment secret the *sender* chooses to put into
+		// its onions so that it can split the payment (R does not verify it, but all parts must carry the same)
+		RegKind::Keysend => Ok(RegInfo { kind: spec.kind, hash: sha(&own_pre), preimage: own_pre, secret: Some(sha(&[b"c04-keysend-secret".as_slice(), &[idx as u8]].concat())), min_amt: None, expiry_abs: u64::MAX, min_cltv: None, meta_plain: None, meta_enc: None }),
 	}
 }
 
@@ -398,7 +400,7 @@ impl RecvModel {
 			let Some(secret) = p.secret else { return Verdict::Fail("no-payment-secret") };
 			// "A PaymentClaimable event will only be generated if the PaymentSecret matches a payment secret
 			// fetched via [create_inbound_payment(_for_hash)]": bit-exact, and for *this* hash
-			let Some(reg) = self.regs.iter().find(|r| r.secret == Some(secret) && r.hash == p.hash) else { return Verdict::Fail("secret-not-issued-for-hash") };
+			let Some(reg) = self.regs.iter().find(|r| r.kind != RegKind::Keysend && r.secret == Some(secret) && r.hash == p.hash) else { return Verdict::Fail("secret-not-issued-for-hash") };
 			// "The returned secret commits to the payment_metadata"
 			if p.metadata != reg.meta_enc {
 				return Verdict::Fail("metadata-mismatch");
